@@ -236,6 +236,23 @@ def cells():
     add("R3", "private static in subclass (bare)", "DOG_METHOD", "echo(scount);", "echo(pcount);")
     add("R3", "private constructor via super(...)", "DOG_SUPER", 'super("s");', "super(1);", wrap=False)
     add("R3", "private field of another object in subclass", "DOG_METHOD", "Animal o0 = new Animal(); echo(o0.priv);", "Animal o0 = new Animal(); echo(o0.legs);")
+    # writes through a member expression to an INHERITED private field: the rule is about the class that declares the field,
+    # not about the static class of the object expression
+    add("R3", "private field write in subclass (this.)", "DOG_METHOD", "this.priv = 3;", "this.prot = 3;")
+    add("R3", "private field write of another object in subclass", "DOG_METHOD", "Animal o0 = new Animal(); o0.priv = 3;", "Animal o0 = new Animal(); o0.legs = 3;")
+    add("R3", "private field write through a subclass-typed reference in subclass", "DOG_METHOD", "Dog o0 = new Dog(); o0.priv = 3;", "Dog o0 = new Dog(); o0.legs = 3;")
+    add("R3", "private field read through a subclass-typed reference in subclass", "DOG_METHOD", "Dog o0 = new Dog(); echo(o0.priv);", "Dog o0 = new Dog(); echo(o0.legs);")
+    add("R3", "private method through a subclass-typed reference in subclass", "DOG_METHOD", "Dog o0 = new Dog(); echo(o0.pri());", "Dog o0 = new Dog(); echo(o0.pub());")
+    for slot, obj in (("MAIN", "vd"), ("OTHER_METHOD", "d0")):
+        add("R3", "inherited private field written through a subclass-typed reference", slot, f"{obj}.priv = 1;", f"{obj}.legs = 1;")
+        add("R3", "inherited private field read through a subclass-typed reference", slot, f"echo({obj}.priv);", f"echo({obj}.legs);")
+        add("R3", "inherited protected field written through a subclass-typed reference", slot, f"{obj}.prot = 1;", f"{obj}.legs = 1;")
+        add("R3", "inherited private method through a subclass-typed reference", slot, f"echo({obj}.pri());", f"echo({obj}.pub());")
+    # ... and the declaring class keeps access to its own private members whatever the static type of the reference
+    add("R1", "own private field written through a subclass-typed reference (declaring class)", "ANIMAL_METHOD", "md.priv = mo;", "md.priv = 5;")
+    add("R1", "own private field read through a subclass-typed reference (declaring class)", "ANIMAL_METHOD", "mo = md.priv;", "mi = md.priv;")
+    add("R1", "own private method through a subclass-typed reference (declaring class)", "ANIMAL_METHOD", "mo = md.pri();", "mi = md.pri();")
+    add("R1", "own protected field written through a subclass-typed reference (declaring class)", "ANIMAL_METHOD", "md.prot = mo;", "md.prot = 5;")
 
     # R4 declarations
     for slot in ("MAIN", "ANIMAL_METHOD", "FUNC"):
